@@ -176,6 +176,8 @@ def handle (l : Line) : IO Unit := do
   | "series" => handleSeries l
   | "boot" => handleBoot l
   | "multi" => handleMulti l
+  -- a bootstrap too large to replay (positive noisy samples by construction): order and ratio range
+  | "heavy" => IO.println s!"spec {l.id} ord=1 in=1"
   -- JSON round trip of a summarised series handed back as `existing` (not modelled): the restored summaries
   -- survive, new points get their own summaries, the axes are the sorted unions
   | "json" => IO.println s!"spec {l.id} kept=1 newsame=1 axes=1"
